@@ -132,17 +132,37 @@ func runWorker(bin string, job *sim.Job, extraEnv ...string) ([]*sim.RunResult, 
 	cmd.Dir = dir
 	outb, werr := cmd.CombinedOutput()
 	var res []*sim.RunResult
+	pending := int64(-1) // run that had begun when the process ended
 	f, err := os.Open(job.Out)
 	if err == nil {
 		sc := bufio.NewScanner(f)
 		sc.Buffer(make([]byte, 1<<20), 1<<30)
 		for sc.Scan() {
+			var b struct {
+				Begin *uint64 `json:"begin"`
+			}
+			if json.Unmarshal(sc.Bytes(), &b) == nil && b.Begin != nil {
+				pending = int64(*b.Begin)
+				continue
+			}
 			var r sim.RunResult
 			if json.Unmarshal(sc.Bytes(), &r) == nil {
 				res = append(res, &r)
+				pending = -1
 			}
 		}
 		f.Close()
+	}
+	if werr != nil && pending >= 0 && job.Mode != "shrink" {
+		if sig := crashSignature(string(outb)); sig != "" {
+			// the run took the whole process down: that is a result, not a tool failure
+			r := &sim.RunResult{Engine: job.Engine, Profile: job.Profile, Seed: job.Seed, Run: uint64(pending), Nontrivial: true, Stats: sim.Stats{"process-crash": 1},
+				Violations: []sim.Violation{{Property: job.Profile, Invariant: "process-crash", Detail: "the run ended the process: " + sig}}, Sample: strings.Split(tail(string(outb), 1500), "\n")}
+			if job.Replay != nil {
+				r.Tape = job.Replay
+			}
+			return append(res, r), nil
+		}
 	}
 	if werr != nil {
 		if len(res) > 0 && strings.Contains(string(outb), "race detected during execution of test") {
@@ -152,6 +172,26 @@ func runWorker(bin string, job *sim.Job, extraEnv ...string) ([]*sim.RunResult, 
 		return res, fmt.Errorf("worker: %v\n%s", werr, tail(string(outb), 3000))
 	}
 	return res, nil
+}
+
+// crashSignature recognises a Go runtime fatal error (not recoverable by the
+// engines' panic guards) in a worker's output and names the library frames.
+func crashSignature(out string) string {
+	i := strings.Index(out, "fatal error: ")
+	if i < 0 {
+		return ""
+	}
+	lines := strings.Split(out[i:], "\n")
+	sig := lines[0]
+	n := 0
+	for _, l := range lines[1:] {
+		l = strings.TrimSpace(l)
+		if strings.HasPrefix(l, "go.sia.tech/core/") && n < 4 {
+			sig += " < " + strings.SplitN(l, "(", 2)[0]
+			n++
+		}
+	}
+	return sig
 }
 
 func tail(s string, n int) string {
@@ -365,6 +405,24 @@ func reportViolation(id, tier string, pt part, bin string, r *sim.RunResult, v s
 	base := fmt.Sprintf("%s-%s-%d-%d", id, pt.Engine, r.Seed, r.Run)
 	orig := replayFile{Engine: pt.Engine, Pkg: pt.Pkg, Profile: pt.Profile, Tier: tier, Seed: r.Seed, Run: r.Run, Violation: v, Tape: r.Tape, OrigTapeLen: len(r.Tape), LogHash: r.LogHash, Env: pt.Env, Trace: r.Sample}
 	writeJSON(filepath.Join(root, "replays", base+".orig.json"), orig)
+	if len(r.Tape) == 0 {
+		// a run that killed its process: no tape came back; it is identified by
+		// seed and run number and verified by running exactly that run again
+		job := &sim.Job{Engine: pt.Engine, Profile: pt.Profile, Tier: tier, Seed: r.Seed, RunStart: r.Run, RunCount: 1, RunStep: 1}
+		res, _ := runWorker(bin, job, pt.Env...)
+		again := false
+		for _, rr := range res {
+			for _, mv := range rr.Violations {
+				again = again || mv.Key() == v.Key()
+			}
+		}
+		if !again {
+			fmt.Println("NOTE: the process crash did not recur when the run was repeated")
+		}
+		path := filepath.Join(root, "replays", base+".json")
+		writeJSON(path, orig)
+		return path
+	}
 	min := orig
 	budget := 60.0
 	if tier == "thorough" {
@@ -415,8 +473,11 @@ func cmdReplay(args []string) {
 	if err := json.Unmarshal(b, &rf); err != nil {
 		die(2, "%v", err)
 	}
-	bin := buildEngine(rf.Pkg, false)
+	bin := buildEngine(rf.Pkg, rf.Engine == "E3")
 	job := &sim.Job{Engine: rf.Engine, Profile: rf.Profile, Tier: rf.Tier, Seed: rf.Seed, Mode: "replay", Replay: rf.Tape}
+	if len(rf.Tape) == 0 {
+		job = &sim.Job{Engine: rf.Engine, Profile: rf.Profile, Tier: rf.Tier, Seed: rf.Seed, RunStart: rf.Run, RunCount: 1, RunStep: 1}
+	}
 	res, err := runWorker(bin, job, rf.Env...)
 	if err != nil || len(res) != 1 {
 		die(2, "replay failed to run: %v", err)
